@@ -95,6 +95,18 @@ def cases(draw, tier="quick"):
             P["peer"] = "dilating"
             P["dilation"] = [True, True]
             P["dilate_at"] = [P["dilate_at"][0], "start"]
+    if draw(st.integers(0, 7)) == 0:
+        # close() on the Leader right after it gave up on a silent connection (ping timeout): it has told the
+        # transport to close, connectionLost has not been delivered yet
+        P["close_in_state"] = ["L", "TIMEDOUT"]
+        P["ops"] = [o for o in P["ops"] if o[0] != "wclose"]
+        P["silent"] = "F"
+        P["kills"] = 0
+        P["ping_interval"] = [draw(st.sampled_from([1.0, 5.0]))] * 2
+        P.pop("close_after_kills", None)
+        P["peer"] = "dilating"
+        P["dilation"] = [True, True]
+        P["dilate_at"] = [P["dilate_at"][0], "start"]
     P["reuse_endpoints"] = draw(st.booleans())
     P["w_app"] = draw(st.sampled_from([1, 2, 4]))
     n = draw(st.integers(10, 400))
@@ -147,7 +159,12 @@ def run_case(P):
             m = c.managers()[tgt[0]]
             hit = False
             if m is not None:
-                if tgt[1] == "CANDIDATE":
+                if tgt[1] == "TIMEDOUT":
+                    node = c.ws[tgt[0]]._sim_node
+                    hit = silent_on[0] and c.state_name(m) == "CONNECTED" and any(
+                        t.owner is node and t.closing and not t.lost
+                        for l in c.W.net.links for t in (l.a, l.b))
+                elif tgt[1] == "CANDIDATE":
                     cn = getattr(m, "_connector", None)
                     hit = cn is not None and bool(getattr(cn, "_contenders", None)) and \
                         getattr(cn, "_winning_connection", None) is None
@@ -164,16 +181,28 @@ def run_case(P):
     def extra(c):
         out = []
         if P["silent"] is not None and not silent_on[0]:
-            def go_silent(c2):
+            idx = P["silent"]
+            if idx in ("L", "F"):
+                li = c.leader_index()
+                # by role; only once the first connection is in use (the silence begins on an established link)
+                idx = None if li is None or not c.selected_links() else (li if idx == "L" else 1 - li)
+
+            def go_silent(c2, idx=idx):
                 silent_on[0] = True
-                c2.W.net.silent_nodes.add(c2.ws[P["silent"]]._sim_node)
-            out.append((1, ("custom", go_silent)))
+                c2.W.net.silent_nodes.add(c2.ws[idx]._sim_node)
+            if idx is not None:
+                out.append((3 if P["silent"] in ("L", "F") else 1, ("custom", go_silent)))
         return out
     try:
         case.run(extra_choices=extra, after_step=after)
         if P["silent"] is not None and not silent_on[0]:
-            silent_on[0] = True
-            case.W.net.silent_nodes.add(case.ws[P["silent"]]._sim_node)
+            idx = P["silent"]
+            if idx in ("L", "F"):
+                li = case.leader_index()
+                idx = None if li is None else (li if idx == "L" else 1 - li)
+            if idx is not None:
+                silent_on[0] = True
+                case.W.net.silent_nodes.add(case.ws[idx]._sim_node)
         for i in range(2):
             if not case.dilated[i] and P["dilate_at"][i] != "never":
                 case._do_intent(["dilate", i])
